@@ -105,25 +105,6 @@ theorem rootGroups_append (a : Attrs) (roots : List (String × Obj)) (n : String
     rootGroups (.group a (roots ++ [(n, o)])) = rootGroups (.group a roots) ++ [n] := by
   simp [rootGroups, Obj.kids, List.filter_append, h]
 
-theorem rootGroups_areplace (a : Attrs) (roots : List (String × Obj)) (n : String) (o old : Obj)
-    (hold : alookup n roots = some old) (h : o.gtype = old.gtype) :
-    rootGroups (.group a (areplace n o roots)) = rootGroups (.group a roots) := by
-  simp only [rootGroups, Obj.kids]
-  induction roots with
-  | nil => rfl
-  | cons kv l ih =>
-    obtain ⟨k, w⟩ := kv
-    simp only [areplace]
-    by_cases hk : k = n
-    · subst hk
-      simp only [alookup, if_true, Option.some.injEq] at hold
-      subst hold
-      simp only [if_true, List.filter_cons, h]
-      split <;> simp
-    · simp only [hk, if_false, List.filter_cons]
-      simp only [alookup, hk, if_false] at hold
-      split <;> simp [ih hold]
-
 /-- after `C10_new_tree` the file has exactly one more root, the new one -/
 theorem C10_roots_new (a : Attrs) (roots : List (String × Obj)) (t : Tree) (h : t.info.gtype = "root") :
     rootGroups (.group a (roots ++ [(t.name, encode t)])) = rootGroups (.group a roots) ++ [t.name] := by
